@@ -28,4 +28,8 @@ MUTANTS = [
     {"id": "c07-bump-entry-only-when-moved", "expect": "fire", "edits": [(G, "            components_bumps[repo_id] = ComponentBump(\n                from_builnums, cur_component_bn,\n                from_rbuilds, cur_component_rbuild)", "            if from_builnums != [cur_component_bn]:\n                components_bumps[repo_id] = ComponentBump(\n                    from_builnums, cur_component_bn,\n                    from_rbuilds, cur_component_rbuild)")]},
     # R07h
     {"id": "c07-bump-walk-ends-at-shipped-build", "expect": "fire", "edits": [(G, "            if cur_rbuild.iid in self.from_rbuilds:\n                # do not go deeper\n                dfs_sp[-1] = cur_sp - 1\n                continue\n", "            if cur_rbuild.iid in self.from_rbuilds:\n                break\n")]},
+    # R07i: cached parent-build maps are frozen
+    {"id": "c07-cached-bparents-popped-in-place", "expect": "fire", "edits": [(G, "            parent_rbuilds = {rbuild.iid: rbuild for rbuild in _iter_parent_rbuilds()}\n", "            parent_rbuilds = {rbuild.iid: rbuild for rbuild in _iter_parent_rbuilds()}\n            if len(cur_commit.parents) == 1 and cur_commit.parents[0].iid in rcommits_bparents:\n                parent_rbuilds = rcommits_bparents[cur_commit.parents[0].iid]\n")],
+     "note": "single-parent fast path reuses the cached map before the reduction loop pops from it"},
+    {"id": "c07-n-cached-bparents-copied", "expect": "silent", "edits": [(G, "            parent_rbuilds = {rbuild.iid: rbuild for rbuild in _iter_parent_rbuilds()}\n", "            parent_rbuilds = {rbuild.iid: rbuild for rbuild in _iter_parent_rbuilds()}\n            if len(cur_commit.parents) == 1 and cur_commit.parents[0].iid in rcommits_bparents:\n                parent_rbuilds = dict(rcommits_bparents[cur_commit.parents[0].iid])\n")]},
 ]
